@@ -1293,7 +1293,7 @@ var c13FloatDetours = map[string]string{
 	"github.com/shopspring/decimal.NewFromFloatWithExponent": "decimal from float64",
 	"github.com/shopspring/decimal.Decimal.Float64":          "decimal to float64",
 	"github.com/shopspring/decimal.Decimal.InexactFloat64":   "decimal to float64",
-	"strconv.ParseFloat":                                      "text to float64",
+	"strconv.ParseFloat":                                     "text to float64",
 	"github.com/buger/jsonparser.ParseFloat":                 "JSON number to float64",
 	"github.com/buger/jsonparser.GetFloat":                   "JSON number to float64",
 	"encoding/json.Number.Float64":                           "JSON number to float64",
